@@ -282,11 +282,12 @@ class SyncWorld:
         self.vts[req] = self.sched.spawn(worker, 'req%d' % req.rid, 'env')
         return req
 
-    def ws(self, query, headers=None, path='/engine.io/', host='h', upgrade_headers=True):
+    def ws(self, query, headers=None, path='/engine.io/', host='h', upgrade_headers=True, fail_accept=False):
         ws = WS(len(self.wss), query, dict(headers or {}))
         self.wss.append(ws)
         ws.t_start = self.clock.now
         ws.lost = []
+        ws.fail_accept = fail_accept      # the peer is gone before the WebSocket handshake can be answered
         hdrs = dict(headers or {})
         if upgrade_headers:
             hdrs.setdefault('Upgrade', 'websocket')
@@ -438,6 +439,9 @@ class VWebSocket:
     def __call__(self, environ, start_response):
         self.peer = environ['verif.ws']
         self.world.sched.point('ws.accept')
+        if getattr(self.peer, 'fail_accept', False):
+            # what simple_websocket does when the connection is already gone
+            raise RuntimeError('Cannot obtain socket from WSGI environment.')
         self.peer.accepted = True
         self.peer.step_accept = self.world.nstep
         self.peer.conn = self
